@@ -9,7 +9,7 @@
   no unescaped marker in between and is at most 2n+4 bytes long.  The encoders
   that size their own output buffer never write outside it."
 -/
-import IgrisModel.C04.Lemmas
+import IgrisModel.C04.More
 namespace Igris.Gstuff
 open Igris.Proto Igris.C17
 
@@ -80,6 +80,49 @@ theorem roundtrip_shipped (p : List Byte) (cap : Nat) (hcap : p.length + 2 ≤ c
   · rw [gstuffing_eq_encode]
     exact roundtrip Ctx.v0 shipped_alphabets_wf.2 p (Recv.init cap) (Or.inl rfl) hcap
 
+/-- ROUND TRIP, literally about the scatter-gather encoder `gstuffing_v(vec, n, out, ctx)`:
+for every well-formed alphabet, every list of iovec pieces (any bytes, any lengths, empty
+pieces included), every receiver that is between frames and every capacity ≥ n + 2 (n =
+total payload length): every byte of the encoder's output but the last is answered
+CONTINUE, the last NEWPACKAGE, and the delivered line is the concatenation of the pieces. -/
+theorem roundtrip_iovec (ctx : Ctx) (h : ctx.WF) (pieces : List (List Byte)) (r : Recv) (hidle : Idle r)
+    (hcap : pieces.flatten.length + 2 ≤ r.cap) :
+    ∃ ss, feed ctx r (gstuffingV ctx pieces) =
+        ({ r with state := .s0, crc := 0#8, line := pieces.flatten }, ss ++ [NEWPACKAGE]) ∧ AllCont ss := by
+  rw [encode_pieces]
+  exact roundtrip ctx h pieces.flatten r hidle hcap
+
+/-- HEADLINE: `decode (gstuffing_v iov) = [concat iov]` — exactly one packet, equal to the
+payload, and the status string the driver prints is `C…CN` (one status per frame byte) -/
+theorem decode_gstuffing_v (ctx : Ctx) (h : ctx.WF) (pieces : List (List Byte)) (cap : Nat)
+    (hcap : pieces.flatten.length + 2 ≤ cap) :
+    decode ctx cap (gstuffingV ctx pieces) = [pieces.flatten] ∧
+    (feedTrace ctx (Recv.init cap) (gstuffingV ctx pieces)).1 =
+      List.replicate ((gstuffingV ctx pieces).length - 1) 'C' ++ ['N'] := by
+  obtain ⟨ss, e, a⟩ := roundtrip_iovec ctx h pieces (Recv.init cap) (Or.inl rfl) hcap
+  have ht := feedTrace_of_feed ctx _ _ _ ss e a
+  have hl : ss.length = (gstuffingV ctx pieces).length - 1 := by
+    have := feed_length ctx (Recv.init cap) (gstuffingV ctx pieces)
+    rw [e] at this
+    simp only [List.length_append, List.length_cons, List.length_nil] at this
+    omega
+  simp only [decode, ht, hl, and_self]
+
+/-- frame shape, literally about `gstuffing_v`: START body STOP, no marker in the body,
+at most 2n+4 bytes (n = total length of the pieces) -/
+theorem frame_shape_iovec (ctx : Ctx) (h : ctx.WF) (pieces : List (List Byte)) :
+    ∃ body, gstuffingV ctx pieces = ctx.start :: (body ++ [ctx.stop]) ∧
+      (∀ b ∈ body, b ≠ ctx.start ∧ b ≠ ctx.stop) ∧
+      (gstuffingV ctx pieces).length ≤ 2 * (pieces.map List.length).sum + 4 := by
+  rw [encode_pieces]
+  have hl : pieces.flatten.length = (pieces.map List.length).sum := by simp [List.length_flatten]
+  rw [← hl]
+  exact frame_shape ctx h pieces.flatten
+
+-- non-vacuity of the three theorems above: v1, two pieces, a fresh receiver with 8 bytes
+example : Ctx.v1.WF ∧ Idle (Recv.init 8) ∧ ([[0x41#8], [0xA8#8, 0x42#8]] : List (List Byte)).flatten.length + 2 ≤ (Recv.init 8).cap :=
+  ⟨by decide, Or.inl rfl, by decide⟩
+
 /-- the self-sizing encoders (buffer `2n+4` after `fix: … reserve the worst-case
 frame length`) never write outside their buffer, for every alphabet -/
 theorem encoder_buffer (ctx : Ctx) (pieces : List (List Byte)) :
@@ -103,6 +146,30 @@ theorem encoder_buffer_tight :
 payload already needs more room than the buffer has -/
 theorem encoder_buffer_old_witness : ¬ ((gstuffingV Ctx.v1 [[]]).length ≤ 0 * 2 + 2) := by decide
 
+/-- "THE ENCODERS THAT SIZE THEIR OWN OUTPUT BUFFER NEVER WRITE OUTSIDE IT", about the buffer
+writes themselves: the model `gstuffingVecW` allocates `ret.resize(sz*2+4)` and performs every
+`*outdata++ = b` of `gstuffing_v` / `gstuff_byte` as a store at an explicit index, a store at
+an index ≥ the buffer size being a fault.  For every alphabet (well-formed or not) and every
+list of pieces no store faults, and after `ret.resize(sz2)` the vector is the frame. -/
+theorem encoder_buffer_writes (ctx : Ctx) (pieces : List (List Byte)) :
+    gstuffingVecW ctx pieces = some (gstuffingV ctx pieces) := by
+  have hlen : (gstuffingV ctx pieces).length ≤ vecBufSize (pieces.map List.length).sum := by
+    have := encoder_buffer ctx pieces
+    unfold gstuffingVec at this
+    by_cases hle : (gstuffingV ctx pieces).length ≤ vecBufSize (pieces.map List.length).sum
+    · exact hle
+    · simp [hle] at this
+  obtain ⟨out', e1, _, e3⟩ := emitAll_some (List.replicate (vecBufSize (pieces.map List.length).sum) 0) 0
+    (gstuffingV ctx pieces) (by simpa using hlen)
+  simp only [gstuffingVecW, gstuffingVW_eq, e1]
+  simpa using e3
+
+/-- … and a buffer one byte smaller would not do: with `2n+3` bytes the worst-case payload
+of `encoder_buffer_tight` makes the encoder's last store (the stop marker) fault -/
+theorem encoder_buffer_small_witness :
+    gstuffingVW Ctx.v1 [[0xB2#8, 0xA8#8, 0xB2#8, 0xC5#8, 0xA8#8]] (List.replicate (2 * 5 + 3) 0) = none := by
+  decide +kernel
+
 /-! ### legacy C codec (gstuffing_v1 / gstuff_autorecv_newchar_v1) -/
 
 /-- legacy frame shape: AC :: body ++ [AC], no AC inside, at most 2n+4 bytes -/
@@ -125,11 +192,12 @@ theorem frame_shape_leg (p : List Byte) :
     have h2 := legStuffByte_length_le (strmcrc8 0xFF#8 p)
     simp only [encodeLeg, List.length_cons, List.length_append, List.length_nil]; omega
 
-/-- LEGACY ROUND TRIP (after `fix: gstuffing_v1 escapes the CRC byte`): from a
-receiver in state 0, capacity `≥ |p|+2`, every byte but the last answers
-CONTINUE, the last NEWPACKAGE; the line holds payload ++ [crc] (legacy
-convention: the CRC byte is left in the line), i.e. the packet = line without
-its last byte = the payload. -/
+/-- legacy receiver STATE after a frame (after `fix: gstuffing_v1 escapes the CRC byte`):
+from a receiver in state 0, capacity `≥ |p|+2`, every byte but the last answers CONTINUE,
+the last NEWPACKAGE, and the LINE holds payload ++ [crc] — NOT the payload: the legacy
+receiver leaves the CRC byte in the line.  (The third conjunct is a list identity, kept
+from the first round; the clause of the property is treated by `roundtrip_leg_partial` /
+`roundtrip_leg_witness` below.) -/
 theorem roundtrip_leg (p : List Byte) (r : LRecv) (hs : r.state = .l0) (hcap : p.length + 2 ≤ r.cap) :
     ∃ ss, lfeed r (gstuffingLeg p) =
         ({ r with state := .l0, crc := 0#8, line := p ++ [strmcrc8 0xFF#8 p] }, ss ++ [NEWPACKAGE]) ∧
@@ -161,6 +229,44 @@ theorem roundtrip_leg (p : List Byte) (r : LRecv) (hs : r.state = .l0) (hcap : p
     · rfl
     · exact a1 s hs
   · simp
+
+/-
+  LEGACY ROUND TRIP, the property's clause "one completed packet … whose content equals the
+  payload".  Read literally — the content the legacy API hands over equals the payload — it is
+  FALSE for the legacy receiver: there is no accessor, the user reads `autom->line` through
+  `sline_getline` / `sline_size` (`LRecv.getline`, `LRecv.size`), and the legacy receiver does
+  not strip the CRC-8 (the configurable one does), so the API hands over payload ++ [crc],
+  size n + 1 (`roundtrip_leg_witness`).  What holds (`roundtrip_leg_partial`): under the
+  convention every caller has to follow — the packet is the first `size - 1` bytes
+  (`LRecv.packet`) — the packet equals the payload.  `roundtrip_leg` above is the underlying
+  statement about the receiver state (line = payload ++ [crc]); its third conjunct is a plain
+  list identity and carries no information about the code.
+-/
+/-- from a freshly set-up legacy receiver (`gstuff_autorecv_setbuf_v1`, capacity ≥ n + 2):
+every byte of `gstuffing_v1(p)` but the last is answered CONTINUE, the last NEWPACKAGE; the
+API then hands over `size = n + 1` bytes `payload ++ [crc8 payload]`, whose first `size - 1`
+bytes are the payload; the driver prints `C…CN` and the packet `p` -/
+theorem roundtrip_leg_partial (p : List Byte) (cap : Nat) (hcap : p.length + 2 ≤ cap) :
+    ∃ ss r', lfeed (LRecv.init cap) (gstuffingLeg p) = (r', ss ++ [NEWPACKAGE]) ∧ AllCont ss ∧
+      r'.getline = p ++ [strmcrc8 0xFF#8 p] ∧ r'.size = p.length + 1 ∧ r'.packet = p ∧
+      lfeedTrace (LRecv.init cap) (gstuffingLeg p) =
+        (List.replicate ((gstuffingLeg p).length - 1) 'C' ++ ['N'], [p]) := by
+  obtain ⟨ss, e, a⟩ := roundtrip_leg_idle p (LRecv.init cap) (Or.inr rfl) hcap
+  have ht := lfeedTrace_of_lfeed _ _ _ ss e a
+  have hl : ss.length = (gstuffingLeg p).length - 1 := by
+    have := lfeed_length (LRecv.init cap) (gstuffingLeg p)
+    rw [e] at this
+    simp only [List.length_append, List.length_cons, List.length_nil] at this
+    omega
+  refine ⟨ss, _, e, a, rfl, by simp [LRecv.size], by simp [LRecv.packet, LRecv.getline, LRecv.size], ?_⟩
+  rw [ht, hl]; simp
+
+/-- witness: payload [00] — the legacy API hands over the two bytes 00 AC (the CRC-8 of [00]
+is AC), `sline_size` = 2: as handed over, the content is not the payload -/
+theorem roundtrip_leg_witness :
+    (lfeed (LRecv.init 3) (gstuffingLeg [0x00#8])).1.getline = [0x00#8, 0xAC#8] ∧
+    (lfeed (LRecv.init 3) (gstuffingLeg [0x00#8])).1.size = 2 ∧
+    (lfeed (LRecv.init 3) (gstuffingLeg [0x00#8])).1.getline ≠ [0x00#8] := by decide +kernel
 
 /-- historical: before the repair the legacy encoder wrote the CRC unescaped;
 for the payload [00] the CRC is the start marker itself -/
